@@ -34,11 +34,12 @@ type writer struct {
 	got    []rec
 	roller *rogger.RollFileWriter
 	dir    string
+	file   string // the logger writes through the framework's own file roller (SetFileRoller): the file to read back
 }
 
 // collect reads the roller's files, oldest first, into got (one record per entry found).
 func (w *writer) collect() {
-	if w.roller == nil {
+	if w.roller == nil && w.file == "" {
 		return
 	}
 	var names []string
@@ -46,6 +47,9 @@ func (w *writer) collect() {
 		names = append(names, fmt.Sprintf("roll%d.log", i))
 	}
 	names = append(names, "roll.log")
+	if w.file != "" {
+		names = []string{w.file}
+	}
 	w.mu.Lock()
 	w.got = nil
 	for _, n := range names {
@@ -85,18 +89,19 @@ type entry struct {
 }
 
 type S struct {
-	writers   []*writer
-	entries   []*entry
-	mu        sync.Mutex
-	atFlush   map[string]bool // entries returned before the flush was requested
-	flushReq  int
-	flushRet  int
-	flushDur  time.Duration
-	flushed   bool
-	gotAtRet  [][]rec // writer records when FlushLogger returned
-	qAtFlush  int
-	panicMode bool
-	exitSeen  bool
+	writers    []*writer
+	entries    []*entry
+	mu         sync.Mutex
+	atFlush    map[string]bool // entries returned before the flush was requested
+	flushReq   int
+	flushRet   int
+	flushDur   time.Duration
+	flushed    bool
+	gotAtRet   [][]rec // writer records when FlushLogger returned
+	qAtFlush   int
+	panicMode  bool
+	exitSeen   bool
+	fileLogger bool
 	// writer switch: logger swLogger gets writer swTo (index into writers) between steps swFrom and swDone
 	swLogger       int
 	swTo           int
@@ -137,6 +142,16 @@ func (s *S) Run(c *scen.Ctx) {
 	for i := range loggers {
 		loggers[i] = rogger.GetLogger(fmt.Sprintf("verif%d", i))
 		loggers[i].SetWriter(s.writers[i])
+		if i == 0 && s.writers[0].roller == nil && simrt.Draw(5, "c20.fileroller") == 4 {
+			// configured the way an application does it, through SetFileRoller; it may be configured
+			// again later (a reload with other limits) while entries are still queued
+			if dir, err := os.MkdirTemp("", "vsim-c20-file"); err == nil {
+				s.writers[0].dir, s.writers[0].file = dir, "verif0.log"
+				loggers[0].SetFileRoller(dir, 10, 1)
+				s.fileLogger = true
+				c.Count("probe.logger_configured_with_SetFileRoller", 1)
+			}
+		}
 	}
 	if simrt.Draw(6, "c20.gracerestart") == 5 {
 		// a graceful restart was requested earlier: the process has started its successor and goes on
@@ -163,7 +178,12 @@ func (s *S) Run(c *scen.Ctx) {
 	// entry belongs to the writer its logger had when it was logged
 	s.swLogger, s.swFrom, s.swDone = -1, -1, -1
 	switchAfter := -1
-	if !s.panicMode && simrt.Draw(4, "c20.switch") == 3 {
+	reconfAfter := -1
+	if s.fileLogger && simrt.Draw(2, "c20.reconf") == 1 {
+		reconfAfter = simrt.Draw(total+1, "c20.reconfafter")
+		c.Count("fault.file_roller_reconfigured_with_backlog", 1)
+	}
+	if !s.panicMode && !s.fileLogger && simrt.Draw(4, "c20.switch") == 3 {
 		s.swLogger = simrt.Draw(nw, "c20.switchwhich")
 		nwr := &writer{name: "switched", prefix: s.writers[s.swLogger].prefix}
 		s.writers = append(s.writers, nwr)
@@ -221,7 +241,11 @@ func (s *S) Run(c *scen.Ctx) {
 				e.retStep = simrt.Step()
 				returnedCalls++
 				doSwitch := returnedCalls == switchAfter
+				doReconf := returnedCalls == reconfAfter
 				s.mu.Unlock()
+				if doReconf {
+					loggers[0].SetFileRoller(s.writers[0].dir, 12, 2)
+				}
 				if doSwitch {
 					s.mu.Lock()
 					s.swFrom = simrt.Step()
